@@ -1,4 +1,5 @@
-import Proofs.Uri.NormalForm
+import Proofs.Uri.IpText
+import Proofs.Uri.Ip4
 /-!
 # C16 — CoAP URIs and Uri-* options convert into each other without loss
 
@@ -74,27 +75,37 @@ theorem C16_degenerate_lists_collapse :
 
 -- 3b. URI → options → URI ------------------------------------------------------------------
 
-/-- **Full statement** (kept visible; it is *false* as it stands, see below): for every text
-`u` that `set_request_uri` accepts with options `o`, `get_request_uri` composes a text `u'`
-which is accepted again, decomposes to the same options as `u`, and is a fixed point.
+/-- **URI → options → URI, for every accepted text.**  For every byte string `u` that
+`set_request_uri` accepts with options `o`, `get_request_uri` composes a text `u'` which is
+accepted again, and
 
-**Proved** for every accepted byte string `u` except one class, spelled out as hypothesis:
-* `hname` — the Uri-Host value does not spell an IP address (`coap://%31.2.3.4/`,
-  `coap://%3A%3A1/`).  There the composed URI is `coap://1.2.3.4/` resp. `coap://[::1]/`, whose
-  host is an IP literal, so the host moves from Uri-Host to the remote: same destination,
-  different options (RFC 7252 §6.4 step 5 / §6.5 step 4 behave the same way, so no fix can remove
-  this class).  The second example below exhibits the difference on the model;
-  `C16_uri_opts_uri_iptext` below says what holds on that class instead.
+* either (`NormalForm`) `u'` decomposes to the same scheme, Uri-Host, Uri-Port, Uri-Path, Uri-Query
+  and port — for IP literals to the identical message state — and recomposes to itself,
+* or the Uri-Host value `h` spells an IP literal (`coap://%31.2.3.4/`, `coap://%3A%3A01/`: registered
+  names whose *decoded* value looks like a dotted quad or an IPv6 text that `_quote_host` lets pass).
+  Then (`MovedToRemote`) `u'` has that literal for a host (`coap://1.2.3.4/`, `coap://[::01]/`), so
+  it decomposes without Uri-Host; scheme, port, Uri-Path and Uri-Query are the same, the remote is
+  the address the option spelled (normalised by `ipaddress`), and from there on nothing moves.
 
-(The second excluded class of the first version of this theorem, `hbr : BracketLeads u` — a `[`
-that is not the first character of the authority, `coap://a[::1]/` —, is gone: such texts are
-rejected since the fix, see `C16_literal_is_whole_host`.)
+The literal reading "decomposes to the same options" is *false* on the second class and no fix
+can make it true: RFC 7252 §6.5 step 4 composes the option value as it stands and §6.4 step 5
+never makes a Uri-Host out of an IP literal (second example below).  It is the only such class:
+the other one the first version of this theorem excluded (`hbr : BracketLeads u`, a `[` that does
+not lead the authority, `coap://a[::1]/`) is rejected since the fix (`C16_literal_is_whole_host`).
 
-`laws` are the assumptions about Python's `ipaddress` (not modelled; none of them is about what
-a zone identifier contains).  What is established: `u'` is composed, accepted, has the same
-scheme, Uri-Host, Uri-Port, Uri-Path, Uri-Query and port; for IP literals the whole message state
-is identical; and `u'` recomposes to itself. -/
-theorem C16_uri_opts_uri_partial (ip : IpOracle) (laws : IpLaws ip) (u : Bytes) (hu : u.wf)
+`laws` are the assumptions about Python's `ipaddress` (not modelled); none of them says anything
+about what a zone identifier contains. -/
+theorem C16_uri_opts_uri (ip : IpOracle) (laws : IpLaws ip) (u : Bytes) (hu : u.wf)
+    (o : Opts) (hok : setRequestUri ip u = .ok o) :
+    (∃ u' o', NormalForm ip o u' o') ∨
+    (∃ h u' o', o.uriHost = some h ∧ ¬ NotIpText ip h ∧ MovedToRemote ip o h u' o') :=
+  uri_opts_uri_total laws hu hok
+
+/-- The first alternative on its own (this is the former `C16_uri_opts_uri_partial` without its
+hypothesis `hbr`): when the Uri-Host value does not spell an IP literal — in particular when
+there is no Uri-Host, or it is an IPv6 text whose zone identifier holds a delimiter — the
+composed URI decomposes to the same options and is a fixed point. -/
+theorem C16_uri_opts_uri_exact (ip : IpOracle) (laws : IpLaws ip) (u : Bytes) (hu : u.wf)
     (o : Opts) (hok : setRequestUri ip u = .ok o)
     (hname : ∀ h, o.uriHost = some h → NotIpText ip h) :
     ∃ u' o', NormalForm ip o u' o' :=
@@ -297,6 +308,38 @@ theorem C16_literal_is_whole_host (ip : IpOracle) (u : Bytes) (o : Opts) (p : Pa
   cases hsplit'
   exact literal_shape (urlsplit_facts hsplit).brackets A hbr
 
+/-- **The IPv4-literal test is RFC 3986's `IPv4address`** (new with the fix that makes
+`01.2.3.4` a name): `IsIPv4address` / `decOctet` are written from the grammar of RFC 3986 §3.2.2
+(`Proofs/Uri/Ip4.lean`), `ip4Looking` is the model of the test in `set_request_uri`. -/
+theorem C16_ip4_literal_is_rfc3986 (h : Bytes) : ip4Looking h = true ↔ IsIPv4address h :=
+  ip4Looking_iff h
+
+/-- RFC 7252 §6.4 step 5 on every accepted text: the Uri-Host option is left out exactly when
+the host is an IP literal in brackets or an `IPv4address` of RFC 3986; otherwise it is the
+percent-decoded, ASCII-lower-cased host name. -/
+theorem C16_uri_host_omitted_iff_ip_literal (ip : IpOracle) (u : Bytes) (o : Opts)
+    (hok : setRequestUri ip u = .ok o) :
+    ∃ p hn, urlsplit ip u = some p ∧ hostnameOf p.netloc = some hn ∧
+      (o.uriHost = none ↔ (p.netloc.head? = some 91 ∨ IsIPv4address hn)) ∧
+      (o.uriHost ≠ none → ∃ h, unquoteStrict hn = some h ∧ o.uriHost = some (asciiLower h)) := by
+  obtain ⟨p, hsplit, A⟩ := setRequestUri_ok_inv hok
+  obtain ⟨hn, hhn, hcase⟩ := A.host
+  refine ⟨p, hn, hsplit, hhn, ?_, ?_⟩
+  · rw [← ip4Looking_iff]
+    rcases hcase with ⟨hl, hnone⟩ | ⟨hl, h, _, hsome⟩
+    · simp only [Bool.or_eq_true, beq_iff_eq] at hl
+      exact ⟨fun _ => hl, fun _ => hnone⟩
+    · simp only [Bool.or_eq_false_iff, beq_eq_false_iff_ne, ne_eq] at hl
+      constructor
+      · intro hnone; rw [hsome] at hnone; cases hnone
+      · rintro (h1 | h1)
+        · exact absurd h1 hl.1
+        · rw [hl.2] at h1; cases h1
+  · intro hne
+    rcases hcase with ⟨_, hnone⟩ | ⟨_, h, hdec, hsome⟩
+    · exact absurd hnone hne
+    · exact ⟨h, hdec, hsome⟩
+
 /-- A text without any `:` has no scheme: it is never accepted and never taken for a
 Proxy-Uri; it is rejected as Incomplete, or as Malformed when it also carries a fragment or
 unbalanced brackets. -/
@@ -330,9 +373,11 @@ theorem C16_no_colon_rejected (ip : IpOracle) (u : Bytes) (h : 58 ∉ u) :
 def exIp : IpOracle := { norm6 := fun t => if t = [58, 58, 49] then some t else none }
 
 theorem exIp_laws : IpLaws exIp := by
-  refine ⟨?_, ?_, ?_, ?_⟩ <;> intro x y h <;> simp only [exIp] at h <;> split at h
+  refine ⟨?_, ?_, ?_, ?_, ?_⟩ <;> intro x y h <;> simp only [exIp] at h <;> split at h
   · injection h with h; subst h; rename_i hx; subst hx
     exact ⟨by simp [exIp], by decide, by decide, by decide, by decide⟩
+  · cases h
+  · injection h with h; subst h; rename_i hx; subst hx; decide
   · cases h
   · injection h with h; subst h; rename_i hx; subst hx; decide
   · cases h
@@ -341,8 +386,89 @@ theorem exIp_laws : IpLaws exIp := by
   · injection h with h; rename_i hx; subst hx; decide
   · cases h
 
+/-- an oracle that, like `ipaddress`, takes `::1` with *any* text for a zone identifier -/
+def exIpZ : IpOracle := { norm6 := fun t => if before 37 t = [58, 58, 49] then some t else none }
+
+theorem lowerUntilPct_split (s : Bytes) :
+    lowerUntilPct s = (before 37 s).map lowerChar ++ dropUntil (· == 37) s := by
+  induction s with
+  | nil => rfl
+  | cons x r ih =>
+    simp only [lowerUntilPct, before, takeUntil, dropUntil, beq_iff_eq]
+    split
+    · simp
+    · simp only [List.map_cons, List.cons_append, List.cons.injEq, true_and]
+      exact ih
+
+/-- ... and still satisfies every assumption the theorems make about `ipaddress`: none of them
+restricts the zone identifier -/
+theorem exIpZ_laws : IpLaws exIpZ := by
+  have key : ∀ x y, exIpZ.norm6 x = some y → y = x ∧ before 37 x = [58, 58, 49] := by
+    intro x y h
+    simp only [exIpZ] at h
+    split at h
+    · rename_i hx; injection h with h; exact ⟨h.symm, hx⟩
+    · cases h
+  have shape : ∀ x, before 37 x = [58, 58, 49] → x = [58, 58, 49] ++ dropUntil (· == 37) x := by
+    intro x hx
+    have := takeUntil_append_dropUntil (· == 37) x
+    rw [show takeUntil (· == 37) x = before 37 x from rfl, hx] at this
+    exact this.symm
+  refine ⟨?_, ?_, ?_, ?_, ?_⟩ <;> intro x y h <;> obtain ⟨rfl, hx⟩ := key x y h
+  · have hs := shape y hx
+    refine ⟨by simp [exIpZ, hx], ?_, ?_, ?_, ?_⟩
+    · rw [hs]; simp
+    · rw [lowerUntilPct_split, hx]
+      exact hs.symm
+    · rw [hs]; simp
+    · rw [hs]; simp
+  · rw [hx]; decide
+  · rw [hx]; decide
+  · rfl
+  · rw [shape y hx]; simp
+
+/-- `::1%a?b` — `ipaddress` (here: `exIpZ`) takes it for an address, `_quote_host` does not: the
+zone identifier holds a delimiter.  It is a *name* in the sense of `NameOk`, so
+`C16_opts_uri_opts` and `C16_distinct_stay_distinct` cover it: it composes to
+`coap://%3A%3A1%25a%3Fb/` and comes back as the same Uri-Host. -/
+def exHostile : Bytes := [58, 58, 49, 37, 97, 63, 98]
+
+def exHostileRes : Resource :=
+  { scheme := [99,111,97,112], host := .name exHostile, port := none, path := [], query := [] }
+
+example : (exIpZ.norm6 exHostile).isSome = true ∧ passesAsAddress exIpZ exHostile = false ∧
+    passesAsAddress exIpZ [58, 58, 49, 37, 97, 98] = true := by decide
+
+example : exHostileRes.WF exIpZ :=
+  { scheme := by decide
+    host := ⟨by decide, by decide, by decide, by decide, by decide, by decide⟩
+    port := by intro p hp; cases hp
+    path := ⟨by decide, by decide⟩
+    query := ⟨by decide, by decide⟩ }
+
+example : getRequestUri exIpZ (exHostileRes.toOpts exIpZ) = some
+    [99,111,97,112,58,47,47,37,51,65,37,51,65,49,37,50,53,97,37,51,70,98,47] := by decide
+
+/-- the new entries of the rejection table on concrete texts: `coap://a[::1]/`,
+`coap://[::1]x:7/`, `coap://[::1%a b]/` are malformed, `coap://[::1%ab]/` is not -/
+example : setRequestUri exIpZ [99,111,97,112,58,47,47,97,91,58,58,49,93,47] = .malformed := by decide
+example : setRequestUri exIpZ [99,111,97,112,58,47,47,91,58,58,49,93,120,58,55,47] = .malformed := by
+  decide
+example : setRequestUri exIpZ [99,111,97,112,58,47,47,91,58,58,49,37,97,32,98,93,47] = .malformed := by
+  decide
+example : setRequestUri exIpZ [99,111,97,112,58,47,47,91,58,58,49,37,97,98,93,47]
+    = .ok { scheme := [99,111,97,112], hostinfo := [91,58,58,49,37,97,98,93], uriHost := none,
+            uriPort := none, path := [], query := [] } := by decide
+
+/-- dec-octet boundaries: `1.2.3.255`, `0.0.0.0` are IPv4 literals; `1.2.3.256`, `01.2.3.4`,
+`1.2.3.00`, `1.2.3.0255`, `1.2.3` are names -/
+example : ip4Looking [49,46,50,46,51,46,50,53,53] = true ∧ ip4Looking [48,46,48,46,48,46,48] = true ∧
+    ip4Looking [49,46,50,46,51,46,50,53,54] = false ∧ ip4Looking [48,49,46,50,46,51,46,52] = false ∧
+    ip4Looking [49,46,50,46,51,46,48,48] = false ∧ ip4Looking [49,46,50,46,51,46,48,50,53,53] = false ∧
+    ip4Looking [49,46,50,46,51] = false := by decide
+
 /-- `CoAp://H:0080/%7e?` is accepted (host lower-cased, port kept with the remote as written) and
-is in the scope of `C16_uri_opts_uri_partial` -/
+falls under the first alternative of `C16_uri_opts_uri` -/
 def exText : Bytes := [67,111,65,112,58,47,47,72,58,48,48,56,48,47,37,55,101,63]
 
 def exTextOpts : Opts :=
@@ -360,11 +486,15 @@ example : exText.wf ∧ setRequestUri exIp exText = .ok exTextOpts ∧ NotIpText
       unquote_escape (a := 55) (b := 101) (x := 7) (y := 14) [] (by decide) (by decide), unquote_nil,
       unquote_cons_ne (c := 104) [] (by decide)]
 
-/-- the hypothesis `hname` cannot be dropped: the options of `coap://%31.2.3.4/` (Uri-Host
-"1.2.3.4", remote `%31.2.3.4`) compose to `coap://1.2.3.4/`, which decomposes *without* Uri-Host -/
+/-- the second alternative of `C16_uri_opts_uri` is not empty and cannot be merged into the first:
+the options of `coap://%31.2.3.4/` (Uri-Host "1.2.3.4", remote `%31.2.3.4`) compose to
+`coap://1.2.3.4/`, which decomposes *without* Uri-Host -/
 def exIpTextOpts : Opts :=
   { scheme := [99,111,97,112], hostinfo := [37,51,49,46,50,46,51,46,52],
     uriHost := some [49,46,50,46,51,46,52], uriPort := none, path := [], query := [] }
+
+example : ¬ NotIpText exIp [49,46,50,46,51,46,52] := by
+  intro h; exact absurd h.1 (by decide)
 
 example : getRequestUri exIp exIpTextOpts = some [99,111,97,112,58,47,47,49,46,50,46,51,46,52,47] ∧
     setRequestUri exIp [99,111,97,112,58,47,47,49,46,50,46,51,46,52,47]
